@@ -293,6 +293,15 @@ pair: KEY ":" VAL
 KEY: /"[a-z]{1,6}"/
 VAL: /"[^"\\\x00-\x1F\x7F\xFF]{0,9}"/ | /"[^"\\\x00-\x1F\x7F\xFF]{11,31}"/ | /[0-9]{1,4}/
 "##),
+    g!("three_classes", Lark, "prod str", r##"start: item (" " item)*
+item: /[a-z]+/ | /[0-9]+/ | /[A-Z]{1,2}/
+"##),
+    g!("three_classes_b", Lark, "prod str", r##"start: (LOW | NUM | UP | WS)+ "."
+LOW: /[a-z]{1,12}/
+NUM: /[0-9]+/
+UP: /[A-Z]{1,5}/
+WS: /[ \t\n]+/
+"##),
     g!("string_escapes", Lark, "prod str", r##"start: STR ("+" STR)*
 STR: /"([^"\\\x00-\x1F]|\\(["\\nrt]|u[0-9a-f]{4}))*"/
 "##),
